@@ -1139,6 +1139,15 @@ func (c *Core) ulNASTransport(ue *UE, u *nas.Uplink) {
 		}
 		ue.PSI = int(sm.PSI)
 		ue.EstPTI = sm.PTI
+		if ue.P.EstReject != 0 {
+			// the SMF refuses the session (TS 24.501 6.4.1.4): 2E | PSI | PTI | C3 | 5GSM cause
+			rej := []byte{0x2E, sm.PSI, sm.PTI, 0xC3, byte(ue.P.EstReject)}
+			psi := sm.PSI
+			msg := c.protectDL(ue, 2, nas.DLNASTransport(rej, &psi, nil))
+			ue.PSI = -1
+			c.out("DownlinkNASTransport/PDUSessionEstablishmentReject", ue.Ordinal, c.dlNAS(ue, msg))
+			return
+		}
 		c.sessionSetup(ue)
 	case nas.MTPDUSessionReleaseRequest:
 		c.cur.Label = "UplinkNASTransport/PDUSessionReleaseRequest"
